@@ -15,6 +15,9 @@ Variable ok_b : f64 -> bool.
 Hypothesis ok_b_sound : forall f, ok_b f = true -> ok f.
 
 Definition small_b (z : Z) : bool := (- 2 ^ 53 <? z) && (z <? 2 ^ 53).
+Definition le53_b (z : Z) : bool := (- 2 ^ 53 <=? z) && (z <=? 2 ^ 53).
+Lemma le53_b_sound z : le53_b z = true -> small z.
+Proof. unfold le53_b, small. intros H. apply andb_true_iff in H. destruct H as [A B]. split; [apply Z.leb_le; exact A | apply Z.leb_le; exact B]. Qed.
 Definition small26_b (z : Z) : bool := (- 2 ^ 26 <=? z) && (z <=? 2 ^ 26).
 
 Lemma small_b_sound z : small_b z = true -> jsmall z.
@@ -54,12 +57,16 @@ Proof.
     + apply tj_all. apply (forallb_Forall'' _ _ _ (fun v _ Hv => IH v Hv) B).
 Qed.
 
+(* mi: is the divisibility clause [mult_iface] available for this numeric implementation? *)
+Variable mi : bool.
+Hypothesis mi_sound : mi = true -> mult_iface N value ok.
+
 Definition tmult_b (q : simple) (k : ikind) (z : Z) : bool :=
   match q_multiple_of q with
   | None => true
   | Some f => ok_b f && match n_exact_int N f with
                         | None => ikind_signed k
-                        | Some g => small26_b g && small26_b z
+                        | Some g => (le53_b g && small_b z && ((g <=? 0) || Z.eqb (z mod g) 0)) || (mi && small26_b g && small26_b z)
                         end
   end.
 
@@ -68,8 +75,13 @@ Proof.
   unfold tmult_b, tmult. destruct (q_multiple_of q) as [f|]; [|intros; exact I].
   intros H. apply andb_true_iff in H. destruct H as [Hf H]. split; [apply ok_b_sound; exact Hf|].
   destruct (n_exact_int N f) as [g|] eqn:E.
-  - right. exists g. apply andb_true_iff in H. destruct H as [A B].
-    split; [apply (ex_int _ _ _ X f g (ok_b_sound f Hf)); exact E | split; [apply small26_b_sound; exact A | apply small26_b_sound; exact B]].
+  - right. apply orb_true_iff in H. destruct H as [H | H].
+    + left. exists g. apply andb_true_iff in H. destruct H as [H D]. apply andb_true_iff in H. destruct H as [A B].
+      split; [apply (ex_int _ _ _ X f g (ok_b_sound f Hf)); exact E|]. split; [apply le53_b_sound; exact A|]. split; [apply small_b_sound; exact B|].
+      apply orb_true_iff in D. destruct D as [D | D]; [left; apply Z.leb_le; exact D | right; apply Z.eqb_eq; exact D].
+    + right. apply andb_true_iff in H. destruct H as [H B]. apply andb_true_iff in H. destruct H as [M A].
+      split; [apply mi_sound; exact M|]. exists g.
+      split; [apply (ex_int _ _ _ X f g (ok_b_sound f Hf)); exact E | split; [apply small26_b_sound; exact A | apply small26_b_sound; exact B]].
   - left. split; [exact H | reflexivity].
 Qed.
 
